@@ -52,9 +52,10 @@ func allChecks() []*Check {
 			Harnesses: []Harness{
 				{Pkg: "client", Func: "VerifSession", Sched: true, Quick: map[string]int{"N": 3, "SW": 1, "KINDS": 0, "TRACK": 1, "PANICS": 1}, Thorough: map[string]int{"N": 4, "SW": 2, "KINDS": 0, "TRACK": 1, "PANICS": 1}, Asserts: []string{"every-panic-reached-Recover", "every-handler-of-every-line-exactly-once", "DISCONNECTED-exactly-once", "DISCONNECTED-not-delayed-by-stuck-background-handler"}},
 				{Pkg: "client", Func: "VerifC16Recover", Asserts: []string{"recover-called-with-conn-and-line", "handle-returns-normally", "default-logs-an-error", "builtin-handler-panic-recovered", "later-handlers-still-run"}},
+				{Pkg: "client", Func: "VerifC16Builtin", Asserts: []string{"builtin-handler-panic-recovered", "later-handlers-still-run"}, Note: "every built-in verb without parameters from 4 kinds of source, then a well-formed line per verb"},
 				{Pkg: "client", Func: "VerifC16Background", Asserts: []string{"foreground-not-delayed-by-stuck-background"}},
 			},
-			Bounds:      map[string]string{"quick": "the C03 session where one designated handler invocation (any line, foreground or background) panics or - background - never returns: the panic reaches the configured Recover, every other handler of that line and of all later lines still runs exactly once, DISCONNECTED still arrives once; hNode.Handle with handlers panicking with a string / error / runtime error / struct, default LogPanic; a built-in handler panicking on a malformed line; 40 events with a background handler that never returns", "thorough": "4 lines, delay bound 2"},
+			Bounds:      map[string]string{"quick": "the C03 session where one designated handler invocation (any line, foreground or background) panics or - background - never returns: the panic reaches the configured Recover, every other handler of that line and of all later lines still runs exactly once, DISCONNECTED still arrives once; hNode.Handle with handlers panicking with a string / error / runtime error / struct, default LogPanic; a built-in handler panicking on a malformed line; every verb with a built-in handler as a parameterless line from no source / the client / another user / the server, tracking on/off, followed by a well-formed line for each of 20 built-in verbs and a user event (a deadlock is a violation); 40 events with a background handler that never returns, the event itself having 0..2 foreground handlers, each followed by a different event", "thorough": "4 lines, delay bound 2"},
 			Outside:     []string{"panic(nil)", "a user Recover that does not call recover()", "schedules beyond the delay bound"},
 			Stubs:       []string{"as C03"},
 			QuickBudget: 6 * time.Minute, ThorBudget: 60 * time.Minute,
@@ -281,6 +282,8 @@ func allChecks() []*Check {
 				{Pkg: "client", Func: "VerifC02Handlers", Quick: map[string]int{"L": 4}, Thorough: map[string]int{"L": 6}, Asserts: []string{"later-PING-still-answered", "later-line-still-dispatched", "capability-state-still-works"}},
 				{Pkg: "client", Func: "VerifC02HandlerShapes", Quick: map[string]int{"L": 2}, Thorough: map[string]int{"L": 4}, Asserts: []string{"later-PING-still-answered", "later-line-still-dispatched", "capability-state-still-works"}},
 				{Pkg: "client", Func: "VerifC02Recv", Quick: map[string]int{"L": 4}, Thorough: map[string]int{"L": 7}, Asserts: []string{"later-line-processed"}},
+				{Pkg: "client", Func: "VerifC02Recv", Quick: map[string]int{"L": 1, "LONG": 4092, "LONGSPAN": 6}, Thorough: map[string]int{"L": 2, "LONG": 4080, "LONGSPAN": 30}, Asserts: []string{"later-line-processed"}, Note: "lines around and beyond the reader's 4096-byte buffer"},
+				{Pkg: "client", Func: "VerifC02HandlerShapes", Quick: map[string]int{"L": 0, "RUN": 600}, Thorough: map[string]int{"L": 1, "RUN": 600}, Asserts: []string{"later-PING-still-answered", "later-line-still-dispatched"}, Note: "600 copies of one arbitrary byte value after each beginning"},
 			},
 			Bounds:      map[string]string{"quick": "every ASCII byte string of length <= 6", "thorough": "every ASCII byte string of length <= 9"},
 			Outside:     []string{"bytes >= 0x80", "longer lines"},
